@@ -2,11 +2,12 @@
    Proofs/C04*.v; Print Assumptions beneath each.
    TODO (unproved), compared on every generated case instead (see harness/c04/NOTES.md):
      generator_resumable    : wf -> obs (commit acts) = spec_exec acts   (re-entrant)
-     declaration order within a phase for re-entrant runs *)
+     a run-level (rather than generator-step-level) statement of declaration order within a phase and of
+     deferred_when_reached for re-entrant runs *)
 From Coq Require Import List NArith ZArith Bool Sorted.
 Import ListNotations.
 Require Import Verif.Lib.Wire Verif.Lib.C04Sort Verif.Gen.Facts_C04 Verif.Model.C04.
-Require Import Verif.Proofs.C04 Verif.Proofs.C04_flat Verif.Proofs.C04_decide Verif.Proofs.C04_safe Verif.Proofs.C04_groups Verif.Proofs.C04_spec Verif.Proofs.C04_mono Verif.Proofs.C04_one Verif.Proofs.C04_defer.
+Require Import Verif.Proofs.C04 Verif.Proofs.C04_flat Verif.Proofs.C04_decide Verif.Proofs.C04_safe Verif.Proofs.C04_groups Verif.Proofs.C04_spec Verif.Proofs.C04_mono Verif.Proofs.C04_one Verif.Proofs.C04_defer Verif.Proofs.C04_step Verif.Proofs.C04_all Verif.Proofs.C04_order.
 
 (* the regenerated facts say: both repairs are in place (every new action is tested against an
    already executed one; discarded actions leave remaining_actions) *)
@@ -171,6 +172,71 @@ Theorem C04_deferred_when_reached_restart : forall st new a st2 g2 e,
                 (sort (leb_by orderandpos_key) (enumerate (start st) (remaining st ++ new)))).
 Proof. exact (deferred_when_reached_restart cfg_current). Qed.
 Print Assumptions C04_deferred_when_reached_restart.
+
+(* ---- the property's clauses for RE-ENTRANT runs (any resolver state [res], i.e. whatever was executed before) ---- *)
+
+(* (c) a conflict names exactly the contested discriminators of the group reached, in order of first appearance;
+   [contested_b]: with an action already executed for d (earlier phase, or earlier in the same re-entrant commit)
+   d is contested iff some pending action of d is not strictly below it; otherwise iff no pending action of d has
+   a chain that is a strict prefix of all the others' *)
+Theorem C04_group_conflicts : forall res fg,
+  NoDup (map aidx fg) ->
+  map fst (snd (detect cfg_current res (sort_unique_lists (build_unique fg)))) =
+  filter (contested_b res fg) (group_discs fg).
+Proof. exact group_conflicts. Qed.
+Print Assumptions C04_group_conflicts.
+
+Theorem C04_step_conflict : forall st k grp gs evs,
+  NoDup (map aidx grp) -> late (min_order st) k = false ->
+  let fg := forced_group grp in
+  let C := filter (contested_b (resolved st) fg) (group_discs fg) in
+  C <> [] ->
+  exists K st', next_group cfg_current st ((k, grp) :: gs) evs = SStop (Conflict K) (evs ++ force_events grp) st'
+                /\ map fst K = C.
+Proof. exact step_conflict. Qed.
+Print Assumptions C04_step_conflict.
+
+(* (b) when nothing is contested the group hands out every None-discriminated action and, per discriminator not
+   executed before, exactly the pending action whose include chain is a strict prefix of all the others'; nothing for
+   a discriminator already executed (those pending actions are silently discarded) *)
+Theorem C04_group_output_members : forall res fg,
+  NoDup (map aidx fg) ->
+  snd (detect cfg_current res (sort_unique_lists (build_unique fg))) = [] ->
+  forall x, In x (none_output fg ++ fst (detect cfg_current res (sort_unique_lists (build_unique fg)))) <->
+            In x fg /\ match Dx x with
+                       | None => True
+                       | Some d => lookup d res = None /\ dom x (grp_d d fg) = true
+                       end.
+Proof. exact group_output_members. Qed.
+Print Assumptions C04_group_output_members.
+
+(* (a) when the commit completes, every action without a discriminator that was declared -- initially or by an
+   executed action -- has run, and no action runs twice *)
+Theorem C04_none_actions_run_once : forall acts,
+  wf_ids acts = true -> fst (commit acts) = Done ->
+  let tr := commit_trace cfg_current acts in
+  NoDup (map aid tr) /\
+  forall b, In b (acts ++ flat_map aadds tr) -> D b = None -> In (aid b) (map aid tr).
+Proof. exact none_actions_run_once. Qed.
+Print Assumptions C04_none_actions_run_once.
+
+(* (d) generator-step level: of the phase in progress the generator hands out the pending action with the smallest
+   index, and what stays pending of that phase stays sorted by index; indices are positions in remaining_actions
+   followed by the newly declared actions, all above the indices used before (C04_restart_indices) *)
+Theorem C04_gen_next_in_order : forall st g a st2 g2 e,
+  StronglySorted idx_le (g_out g) ->
+  gen_next cfg_current st g = SYield a st2 g2 e ->
+  exists x, a = snd x /\ StronglySorted idx_le (x :: g_out g2).
+Proof. exact (gen_next_in_order cfg_current). Qed.
+Print Assumptions C04_gen_next_in_order.
+
+Theorem C04_restart_indices : forall st new,
+  let items := enumerate (start st) (remaining st ++ new) in
+  map snd items = remaining st ++ new /\
+  StronglySorted (fun u v : ainfo => (fst u < fst v)%N) items /\
+  Forall (fun u : ainfo => (start st <= fst u)%N) items.
+Proof. exact restart_indices. Qed.
+Print Assumptions C04_restart_indices.
 
 (* the unrepaired code (both parameters off) contradicts the specification: DESIGN.md section 5 item 3 *)
 Theorem C04_commit_spec_refuted_crossphase :
